@@ -98,6 +98,16 @@ type IfaceEmbed interface {
 	Close() error
 }
 `},
+	"ifaceEmbedThird": {imports: []string{"net"}, src: `type IfaceConn interface {
+	net.Conn
+	ID() string
+}
+`},
+	"ifaceEmbedInfo": {imports: []string{"io/fs"}, src: `type IfaceInfo interface {
+	fs.FileInfo
+	Extra() int
+}
+`},
 	"ifaceUnexported": {src: `type IfaceUnexp interface {
 	Pub() int
 	priv(x int)
